@@ -52,6 +52,8 @@ type wk struct {
 	curKind string
 	nextID  int
 	nextDir int
+	must    []string // kinds this history has to contain (taken as soon as feasible)
+	opsLeft int
 	polls   atomic.Int64
 	pollErr atomic.Int64
 	cfgSeen map[string]bool
@@ -524,6 +526,12 @@ func runHistory(caseNo int, seed int64, tier, dir string, nOps int, forced strin
 	}
 	go w.poller()
 	defer finish()
+	w.must = [][]string{
+		{"cut-nonvoter", "rejoin-newaddr-other"},
+		{"cut-voter", "rejoin-same-other"},
+		{"newnode-usedaddr-present", "cut-nonvoter"},
+		{"newnode-usedid-other", "cut-voter"},
+	}[caseNo%4]
 
 	// ---- formation
 	formation := []string{"bootstrap-1", "notify-2", "notify-3", "notify-3"}[r.IntN(4)]
@@ -552,6 +560,7 @@ func runHistory(caseNo int, seed int64, tier, dir string, nOps int, forced strin
 			return res
 		}
 		var kind string
+		w.opsLeft = n - i
 		if len(forcedKinds) > 0 {
 			kind = forcedKinds[i]
 		} else {
@@ -696,6 +705,17 @@ func (w *wk) pick(cfg []entry, l *proc) string {
 			return len(w.candidates(cfg, l, func(p *proc, e entry) bool { return e.Suffrage == "nonvoter" })) > 0
 		}
 		return false
+	}
+	// kinds this history is required to contain
+	for i, k := range w.must {
+		ok := feasible(k)
+		if !ok && k == "cut-nonvoter" && nLive < maxLive && voters >= 2 {
+			return "join-nonvoter" // make it feasible
+		}
+		if ok && (w.r.IntN(2) == 0 || w.opsLeft <= len(w.must)+2) {
+			w.must = append(w.must[:i:i], w.must[i+1:]...)
+			return k
+		}
 	}
 	// grow first: most operations need three voters to be possible at all
 	if voters < 3 && nLive < maxLive && w.r.IntN(3) > 0 {
